@@ -1,7 +1,7 @@
 (* Prototype: the C01/C02/C03/C11 oracle: source semantics of the model-parsed scripts vs. the target
    semantics of the instructions read back from the implementation's output text. *)
 From Coq Require Import List String Ascii ZArith NArith Bool.
-From Pory Require Import Lexer Ast Parser Emitter Format Compile Sem2 SemTgt Tr Check EmitProps RenderSim RenderCheck LabelSim C01Final.
+From Pory Require Import Lexer Ast Parser Emitter Format Compile Sem2 SemTgt Tr Check EmitProps RenderSim RenderCheck LabelSim C01Final Worklist C01Main.
 Import ListNotations.
 
 Section O.
@@ -47,14 +47,14 @@ Definition checker (src : text) : option (list (text * bool)) :=
   | _ => None
   end.
 
-(* both validators of theorem emit_script_correct_checked on the model's own graph, order and code of every script *)
+(* the source check of theorem emit_script_correct (src_okb), its two validators (wf_render, labels_okb) and - redundantly since lemma 1 - the relation checker, on the model's own graph, order and code of every script *)
 Definition validate_script (mp : option text) (tl : list text) (name : text) (glob optimize : bool) (body : list stmt) : bool :=
   match emit_graph body with
   | Emitter.Ok w =>
       let G := finals w in
       let order := order_of optimize G in
       match render_chunks mp tl name glob G order with
-      | Emitter.Ok code => chk_block G (brk w) (org w) 400 body 0 (-1) && wf_render mp name G order code && labels_okb body G
+      | Emitter.Ok code => src_okb body && chk_block G (brk w) (org w) 400 body 0 (-1) && wf_render mp name G order code && labels_okb body G
       | _ => true      (* label clash: an error is returned, nothing is emitted *)
       end
   | _ => false
